@@ -19,7 +19,8 @@ Inductive action := Enforce | Log.          (* expiry / authenticTimestamp canno
 
 Record cert := mk_cert { nb : Z; na : Z }.  (* NotBefore, NotAfter *)
 
-Inductive rres := ROK | RNonRevokable | RUnknown | RRevoked | ROther.
+Inductive rres := ROK | RNonRevokable | RUnknown | RRevoked | ROther
+  | RNil.   (* a nil entry in the validator's answer *)
 Inductive vout := VErr | VRes (rs : list rres).     (* answer of the timestamping revocation validator *)
 Inductive sres := SErr | SEmpty | SCerts.           (* answer of the trust store for one named tsa store *)
 
@@ -35,6 +36,7 @@ Record token := mk_token {
   k_verify : bool;       (* SignedToken.Verify under the certificates of the policy's tsa
                             stores at CurrentTime = genTime returns a chain *)
   k_rules : bool;        (* nx509.ValidateTimestampingCertChain accepts that chain *)
+  k_tsalen : N;          (* number of certificates of that chain (the TSA chain) *)
   k_rev : vout }.        (* revocation validator's answer for that chain *)
 
 Record input := mk_input {
@@ -59,7 +61,10 @@ Inductive why :=
 | WNowBefore (k : N) | WNowAfter (k : N)
 | WNoToken | WParse | WInfo | WImprint | WLoad | WNoRoots | WVerify | WRules
 | WTsBefore (k : N) | WTsAfter (k : N)
-| WRevErr | WRevoked (k : N) | WRevUnknown (k : N).
+| WRevErr
+| WRevCount               (* checkRevocationResults: not one result per TSA certificate *)
+| WRevNil (k : N)         (* checkRevocationResults: nil entry at position k *)
+| WRevoked (k : N) | WRevUnknown (k : N).
 
 Inductive res := Passed | Failed (w : why).
 
@@ -148,8 +153,8 @@ Fixpoint ts_loop (lo hi : Z) (cs : list cert) (k : N) : option why :=
 
 (* ---------- revocationFinalResult on the TSA chain ----------
    loop i = len(results)-1 .. 0 with counters; certificates are named by
-   their index (a result vector longer than the chain indexes out of range in
-   the Go code: outside the validator contract) *)
+   their index. Since d78db00 checkRevocationResults runs first ([shape_check]
+   below): the loop only sees one non-nil result per TSA certificate. *)
 Definition is_ok (r : rres) : bool :=
   match r with ROK | RNonRevokable => true | _ => false end.
 Definition is_revoked (r : rres) : bool :=
@@ -187,6 +192,27 @@ Definition rev_check (v : vout) : option why :=
       end
   end.
 
+(* ---------- checkRevocationResults(certResults, tsaCertChain) ----------
+   len(certResults) != len(certChain) -> error; then the first nil entry -> error *)
+Definition is_nil (r : rres) : bool := match r with RNil => true | _ => false end.
+
+Fixpoint first_nil (k : N) (rs : list rres) : option N :=
+  match rs with
+  | [] => None
+  | r :: rs' => if is_nil r then Some k else first_nil (N.succ k) rs'
+  end.
+
+Definition shape_check (n : N) (v : vout) : option why :=
+  match v with
+  | VErr => None          (* ValidateContext's own error is returned before (see [rev_check]) *)
+  | VRes rs =>
+      if negb (N.of_nat (List.length rs) =? n)%N then Some WRevCount
+      else match first_nil 0%N rs with
+           | Some k => Some (WRevNil k)
+           | None => None
+           end
+  end.
+
 (* ---------- verifyTimestamp ---------- *)
 Definition perform_ts (now : Z) (cs : list cert) (opt : tsopt) (enabled : bool) : bool :=
   enabled && match opt with
@@ -209,9 +235,13 @@ Definition countersig (i : input) : res :=
            else match ts_loop (k_gen k - k_acc k) (k_gen k + k_acc k) (i_chain i) 0%N with
                 | Some w => Failed w
                 | None =>
-                    match rev_check (k_rev k) with
+                    match shape_check (k_tsalen k) (k_rev k) with
                     | Some w => Failed w
-                    | None => Passed
+                    | None =>
+                        match rev_check (k_rev k) with
+                        | Some w => Failed w
+                        | None => Passed
+                        end
                     end
                 end
        end.
@@ -250,10 +280,10 @@ Definition why_eqb (a b : why) : bool :=
   match a, b with
   | WSigTime x, WSigTime y | WNowBefore x, WNowBefore y | WNowAfter x, WNowAfter y
   | WTsBefore x, WTsBefore y | WTsAfter x, WTsAfter y
-  | WRevoked x, WRevoked y | WRevUnknown x, WRevUnknown y => (x =? y)%N
+  | WRevoked x, WRevoked y | WRevUnknown x, WRevUnknown y | WRevNil x, WRevNil y => (x =? y)%N
   | WConfig, WConfig | WNoToken, WNoToken | WParse, WParse | WInfo, WInfo
   | WImprint, WImprint | WLoad, WLoad | WNoRoots, WNoRoots | WVerify, WVerify
-  | WRules, WRules | WRevErr, WRevErr => true
+  | WRules, WRules | WRevErr, WRevErr | WRevCount, WRevCount => true
   | _, _ => false
   end.
 
@@ -306,12 +336,19 @@ Definition window_ok (lo hi : Z) (c : cert) : bool := (nb c <=? lo) && (hi <=? n
 Definition rev_ok (v : vout) : bool :=
   match v with VErr => false | VRes rs => forallb is_ok rs end.
 
+(* the validator answered with one (non-nil) result per certificate of the TSA chain *)
+Definition shape_ok (n : N) (v : vout) : bool :=
+  match v with
+  | VErr => true
+  | VRes rs => (N.of_nat (List.length rs) =? n)%N && forallb (fun r => negb (is_nil r)) rs
+  end.
+
 Definition token_ok (i : input) : bool :=
   let k := i_tok i in
   k_present k && k_parses k && k_info k && k_imprint k
   && all_load i && some_root i && k_verify k && k_rules k
   && forallb (window_ok (k_gen k - k_acc k) (k_gen k + k_acc k)) (i_chain i)
-  && rev_ok (k_rev k).
+  && shape_ok (k_tsalen k) (k_rev k) && rev_ok (k_rev k).
 
 Definition expected_pass (i : input) : bool :=
   match i_scheme i with
@@ -358,6 +395,12 @@ Definition why_ok (i : input) (w : why) : bool :=
           | WTsBefore n => applies i && cert_at n (i_chain i) (fun c => lo <? nb c)
           | WTsAfter n => applies i && cert_at n (i_chain i) (fun c => na c <? hi)
           | WRevErr => applies i && match k_rev k with VErr => true | _ => false end
+          | WRevCount =>
+              applies i && match k_rev k with
+                           | VRes rs => negb (N.of_nat (List.length rs) =? k_tsalen k)%N
+                           | VErr => false
+                           end
+          | WRevNil n => applies i && rres_at n (k_rev k) is_nil
           | WRevoked n => applies i && rres_at n (k_rev k) is_revoked
           | WRevUnknown n =>
               applies i && rres_at n (k_rev k) (fun r => negb (is_ok r))
@@ -421,7 +464,9 @@ Definition Token_ok (i : input) : Prop :=
   (exists name, In ("tsa:" ++ name)%string (i_stores i) /\ lookup_db name (i_tsadb i) = SCerts) /\
   k_verify k = true /\ k_rules k = true /\
   Forall (Inside (k_gen k - k_acc k) (k_gen k + k_acc k)) (i_chain i) /\
-  exists rs, k_rev k = VRes rs /\ Forall (fun r => r = ROK \/ r = RNonRevokable) rs.
+  (* unrevoked TSA: one result per certificate of the TSA chain, each OK or non-revokable *)
+  exists rs, k_rev k = VRes rs /\ N.of_nat (List.length rs) = k_tsalen k /\
+             Forall (fun r => r = ROK \/ r = RNonRevokable) rs.
 
 (* functional updates used to state what a result does NOT depend on *)
 Definition with_opt (i : input) (o : tsopt) : input :=
@@ -442,7 +487,7 @@ Definition with_policy (i : input) (stores : list string) (o : tsopt)
    leaf expired 36000 s ago, root valid; afterCertExpiry; tsa store "a" holds a
    certificate; token issued 72000 s ago with 1 s accuracy by a trusted,
    well-formed, unrevoked TSA *)
-Definition ex_tok : token := mk_token true true true true (-72000) 1 true true (VRes [ROK; ROK]).
+Definition ex_tok : token := mk_token true true true true (-72000) 1 true true 2 (VRes [ROK; ROK]).
 Definition ex_in (stores : list string) (k : token) : input :=
   mk_input 0 X509 (-80000) None [mk_cert (-360000) (-36000); mk_cert (-360000) 360000]
            stores OptAfterCertExpiry [("a", SCerts)] k Enforce Enforce.
